@@ -42,7 +42,7 @@ def run_with_requests(case, settle=True):
         # index in the trace / call list at the end of the schedule
         obs['n_calls_schedule'] = len(w.futs)
         if settle:
-            ex.settle(play=True, resumes=DEFAULT_RESUMES, open_gates=True)
+            ex.settle(play=True, resumes=None if 'outline' in case else DEFAULT_RESUMES, open_gates=True)
         obs['trace'] = list(w.trace.get(pid, []))
         obs['steps'] = w.steps(pid)
         obs['calls'] = list(w.futs)
@@ -60,11 +60,10 @@ def run_with_requests(case, settle=True):
 
 def run_twin(case, delivered):
     """The uninterrupted run: no pause/play, same wake-up values (logical events), gates open from the start."""
-    twin_case = {
-        'program': strip_calls(case['program']),
-        'schedule': [],
-        'pid': case.get('pid', 1),
-    }
+    if 'outline' in case:
+        twin_case = {'outline': case['outline'], 'behaviour': case['behaviour'], 'schedule': [], 'pid': case.get('pid', 1)}
+    else:
+        twin_case = {'program': strip_calls(case['program']), 'schedule': [], 'pid': case.get('pid', 1)}
     resumes = list(DEFAULT_RESUMES)
     for serial, value in delivered.items():
         while len(resumes) < serial:
@@ -78,7 +77,11 @@ def run_twin(case, delivered):
             if ex.proc.has_terminated():
                 break
             with ex.loop.as_running():
-                ex.world.open_all_gates()
+                opened = ex.world.open_all_gates()
+            if 'outline' in case:
+                if not opened:
+                    break
+                continue
             if ex.state == 'waiting':
                 serial = ex._wait_serial()
                 if serial > ex.n_waits_resumed and serial - 1 < len(resumes):
